@@ -16,29 +16,134 @@ import (
 	"golang.org/x/tools/go/ssa"
 )
 
+// Package-level state lives in two worlds. The *pristine* world (per worker, kept across paths) holds the
+// result of running each package initialiser exactly once; it is never handed to code under test. A path
+// sees copies: the first access to a variable on a path deep-copies the pristine object graph reachable
+// from it (an identity map per path keeps aliasing between variables intact), so whatever a path does to
+// global state cannot leak into another path, and initialisers are not re-executed for every path.
 func (e *Engine) global(g *ssa.Global) *Obj {
+	if e.inPristine {
+		if o, ok := e.pristine[g]; ok {
+			return o
+		}
+		if g.Pkg != nil && !e.pristineInited[g.Pkg] {
+			e.runInit(g.Pkg)
+			if o, ok := e.pristine[g]; ok {
+				return o
+			}
+		}
+		o := e.newObj(zero(g.Type().(*types.Pointer).Elem()))
+		e.pristine[g] = o
+		e.applyOverride(g, o)
+		return o
+	}
 	if o, ok := e.globals[g]; ok {
 		return o
 	}
-	if g.Pkg != nil && !e.inited[g.Pkg] {
-		e.runInit(g.Pkg)
-		if o, ok := e.globals[g]; ok {
-			return o
-		}
-	}
-	o := e.newObj(zero(g.Type().(*types.Pointer).Elem()))
+	// materialise from the pristine world
+	saved := e.inPristine
+	e.inPristine = true
+	po := func() *Obj {
+		defer func() { e.inPristine = saved }()
+		return e.global(g)
+	}()
+	o := e.copyObj(po)
 	e.globals[g] = o
-	e.applyOverride(g, o)
 	return o
 }
 
 func (e *Engine) globalRaw(g *ssa.Global) *Obj {
-	if o, ok := e.globals[g]; ok {
+	if !e.inPristine {
+		return e.global(g)
+	}
+	if o, ok := e.pristine[g]; ok {
 		return o
 	}
 	o := e.newObj(zero(g.Type().(*types.Pointer).Elem()))
-	e.globals[g] = o
+	e.pristine[g] = o
 	return o
+}
+
+func (e *Engine) copyObj(po *Obj) *Obj {
+	if po == nil {
+		return nil
+	}
+	if o, ok := e.copyMap[po]; ok {
+		return o
+	}
+	o := e.newObj(nil)
+	e.copyMap[po] = o
+	o.V = e.copyDeep(po.V)
+	return o
+}
+
+func (e *Engine) copyDeep(v Val) Val {
+	switch x := v.(type) {
+	case Agg:
+		n := Agg{F: make([]Val, len(x.F))}
+		for i, f := range x.F {
+			n.F[i] = e.copyDeep(f)
+		}
+		return n
+	case Ptr:
+		if x.O == nil {
+			return x
+		}
+		return Ptr{O: e.copyObj(x.O), P: x.P, SD: x.SD}
+	case Slice:
+		if x.O == nil {
+			return x
+		}
+		return Slice{O: e.copyObj(x.O), Base: x.Base, Off: x.Off, Len: x.Len, Cap: x.Cap}
+	case Iface:
+		return Iface{T: x.T, V: e.copyDeep(x.V)}
+	case Closure:
+		if len(x.Env) == 0 {
+			return x
+		}
+		n := Closure{Fn: x.Fn, Native: x.Native, Env: make([]Val, len(x.Env))}
+		for i, f := range x.Env {
+			n.Env[i] = e.copyDeep(f)
+		}
+		return n
+	case Tuple:
+		n := make(Tuple, len(x))
+		for i, f := range x {
+			n[i] = e.copyDeep(f)
+		}
+		return n
+	case Map:
+		if x.M == nil {
+			return x
+		}
+		if m, ok := e.copyMaps[x.M]; ok {
+			return Map{M: m}
+		}
+		e.objID++
+		m := &MapObj{idx: map[string]int{}, dead: map[int]bool{}, id: e.objID}
+		e.copyMaps[x.M] = m
+		for i := range x.M.keys {
+			if x.M.dead[i] {
+				continue
+			}
+			k := e.copyDeep(x.M.keys[i])
+			m.idx[e.canonKey(k)] = len(m.keys)
+			m.keys = append(m.keys, k)
+			m.vals = append(m.vals, e.copyDeep(x.M.vals[i]))
+		}
+		return Map{M: m}
+	case Chan:
+		if x.C == nil {
+			return x
+		}
+		e.objID++
+		c := &ChanObj{cap: x.C.cap, closed: x.C.closed, id: e.objID}
+		for _, b := range x.C.buf {
+			c.buf = append(c.buf, e.copyDeep(b))
+		}
+		return Chan{C: c}
+	}
+	return v
 }
 
 func (e *Engine) applyOverride(g *ssa.Global, o *Obj) {
@@ -60,6 +165,9 @@ func (e *Engine) applyOverride(g *ssa.Global, o *Obj) {
 			a.F[i] = Int{W: 8, C: uint64(c)}
 		}
 		o.V = Slice{O: e.newObj(a), Len: len(b), Cap: len(b)}
+	case ov == "opaque":
+		// a value that is only passed through to redirected / stubbed callees
+		o.V = Iface{T: e.logT, V: e.newOpaque("override:" + g.String())}
 	default:
 		unsup("override kind %s", ov)
 	}
@@ -131,7 +239,14 @@ func isZeroVal(v Val) bool {
 }
 
 func (e *Engine) runInit(p *ssa.Package) {
-	e.inited[p] = true
+	e.pristineInited[p] = true
+	i0 := e.instrs
+	defer func() {
+		if e.initCost == nil {
+			e.initCost = map[string]int{}
+		}
+		e.initCost[p.Pkg.Path()] += e.instrs - i0
+	}()
 	fn := p.Func("init")
 	if fn == nil || fn.Blocks == nil {
 		return
@@ -167,6 +282,16 @@ func (e *Engine) runInit(p *ssa.Package) {
 			e.initStep(p, fr, in)
 		}
 	}
+	// harness-declared global overrides win over whatever the initialiser could (not) compute
+	if e.cfg != nil {
+		for name := range e.cfg.Overrides {
+			for _, m := range p.Members {
+				if g, ok := m.(*ssa.Global); ok && g.String() == name {
+					e.applyOverride(g, e.globalRaw(g))
+				}
+			}
+		}
+	}
 }
 
 func (e *Engine) initStep(p *ssa.Package, fr *frame, in ssa.Instruction) {
@@ -186,6 +311,8 @@ func (e *Engine) initStep(p *ssa.Package, fr *frame, in ssa.Instruction) {
 				why = r.msg
 			case blockedPath:
 				why = r.msg
+			case engineBug:
+				why = "not interpretable: " + r.msg
 			default:
 				panic(r)
 			}
